@@ -147,7 +147,7 @@ def tame(rng, desc, p_diode=0.0, p_nonappl=0.0, p_iq=0.25, p_int=0.1):
 
 
 def main_desc(rng):
-    d = gen.gen_system(rng, p_limits=0.3, p_group=0.3, p_rail=0.3, phases=0.4, p_rt=0.3, p_table=0.3)
+    d = gen.gen_system(rng, p_limits=0.3, p_group=0.3, p_rail=0.3, phases=0.4, p_rt=0.3, p_table=0.3, p_moved=0.0, p_zero_load=0.12)
     return tame(rng, d, p_diode=1.0, p_nonappl=0.03)
 
 
@@ -575,7 +575,7 @@ def dropkey_cases(ctx, tmp, case, doc1):
 # streams
 
 def diode_desc(rng):
-    d = tame(rng, gen.gen_system(rng, max_nodes=8, p_limits=0.2, p_rail=0.2, phases=0.2), p_diode=1.0)
+    d = tame(rng, gen.gen_system(rng, max_nodes=8, p_limits=0.2, p_rail=0.2, phases=0.2, p_moved=0.0), p_diode=1.0)
     cands = [c for c in d["comps"] if c["kind"] not in ("pload", "iload", "rload", "pmux")]
     par = rng.choice(cands)["name"]
     vd = gen.sd(rng, 0.2, 0.9) if rng.random() < 0.7 else gen.mk_table(rng, "vdrop", 0.2, 0.9, 5.0, 0.3)
@@ -585,13 +585,13 @@ def diode_desc(rng):
 
 
 def reserved_desc(rng):
-    d = tame(rng, gen.gen_system(rng, max_nodes=8, p_rail=0.2, phases=0.2))
+    d = tame(rng, gen.gen_system(rng, max_nodes=8, p_rail=0.2, phases=0.2, p_moved=0.0))
     tops = [c["name"] for c in d["comps"] if c["kind"] in ("source", "pmux")]
     return rename(d, rng.choice(tops), "system")
 
 
 def nonappl_desc(rng):
-    d = tame(rng, gen.gen_system(rng, max_nodes=8, p_limits=0.0))
+    d = tame(rng, gen.gen_system(rng, max_nodes=8, p_limits=0.0, p_moved=0.0))
     cands = [c for c in d["comps"] if c["kind"] in APPL]
     c = rng.choice(cands)
     k = rng.choice([x for x in ALL_LIMS if x not in APPL[c["kind"]]])
